@@ -322,9 +322,91 @@ fn params_and_slabs(rng: &mut Rng) {
     }
 }
 
+/// Integer-grid polylines and lines through their vertices: every coordinate is a small integer, so the
+/// crossings of the line with every edge are decided here in exact integer arithmetic (i128),
+/// independently of the library's per-edge function; in particular a line through a vertex — the end
+/// of one edge (edge parameter exactly 1) and the start of the next (exactly 0), or the free end of an
+/// open polyline — must be reported exactly once.
+fn grid_vertex_lines(rng: &mut Rng) {
+    let n = rng.int(3, 14) as usize;
+    let mut ip: Vec<(i64, i64)> = Vec::new();
+    while ip.len() < n {
+        let p = (rng.int(-12, 12), rng.int(-12, 12));
+        if ip.last() != Some(&p) {
+            ip.push(p);
+        }
+    }
+    if rng.chance(0.4) && ip[0] != ip[n - 1] {
+        ip.push(ip[0]);
+    }
+    let pts: Vec<Point2> = ip.iter().map(|p| Point2::new(p.0 as f64, p.1 as f64)).collect();
+    let Ok(c) = Curve2::from_points(&pts, 1e-9, false) else { return };
+    if c.count() != ip.len() {
+        return;
+    }
+    let m = ip.len();
+    for _ in 0..6 {
+        // through one chosen vertex (often an end of the polyline), from an integer origin
+        let k = match rng.below(4) {
+            0 => 0,
+            1 => m - 1,
+            _ => rng.below(m),
+        };
+        let o = (rng.int(-15, 15), rng.int(-15, 15));
+        let mut d = (ip[k].0 - o.0, ip[k].1 - o.1);
+        if d == (0, 0) {
+            d = (rng.int(1, 4), rng.int(-4, 4));
+        }
+        // a positive scale that keeps the direction an exact multiple (power of two or small integer)
+        let sc: f64 = *rng.pick(&[1.0, 1.0, 2.0, 0.5, 0.25, 3.0]);
+        let ray = Ray2::new(Point2::new(o.0 as f64, o.1 as f64), Vector2::new(d.0 as f64 * sc, d.1 as f64 * sc));
+        // exact crossings: t = ((a-o) x e) / (d x e), s = ((a-o) x d) / (d x e), 0 <= s <= 1
+        let cross = |u: (i128, i128), w: (i128, i128)| u.0 * w.1 - u.1 * w.0;
+        let mut exact: Vec<(i128, i128)> = Vec::new(); // t as a fraction num/den with den > 0 (for direction d, unscaled)
+        for j in 0..m - 1 {
+            let a = (ip[j].0 as i128, ip[j].1 as i128);
+            let e = ((ip[j + 1].0 - ip[j].0) as i128, (ip[j + 1].1 - ip[j].1) as i128);
+            let dd = (d.0 as i128, d.1 as i128);
+            let den = cross(dd, e);
+            if den == 0 {
+                continue; // parallel (also collinear) edges are not reported by the per-edge specification
+            }
+            let ao = (a.0 - o.0 as i128, a.1 - o.1 as i128);
+            let (mut tn, mut sn, mut dn) = (cross(ao, e), cross(ao, dd), den);
+            if dn < 0 {
+                tn = -tn;
+                sn = -sn;
+                dn = -dn;
+            }
+            if sn < 0 || sn > dn {
+                continue;
+            }
+            if !exact.iter().any(|q| q.0 * dn == tn * q.1) {
+                exact.push((tn, dn));
+            }
+        }
+        let mut want: Vec<f64> = exact.iter().map(|q| q.0 as f64 / q.1 as f64 / sc).collect();
+        want.sort_by(|a, b| a.partial_cmp(b).unwrap());
+        let mut v = Verdict::new();
+        match guarded(|| c.ray_intersections(&ray)) {
+            Err(e) => v.require(false, "intersections.panics", || e.clone()),
+            Ok(hits) => {
+                let got: Vec<f64> = hits.iter().map(|h| h.0).collect();
+                let same = got.len() == want.len() && got.iter().zip(&want).all(|(a, b)| (a - b).abs() <= 1e-9 * (1.0 + b.abs()));
+                v.require(same, "intersections.exact_on_integer_grid", || format!("polyline {ip:?} origin {o:?} dir {d:?}*{sc}: exact {want:?} vs reported {got:?}"));
+                let sr = c.try_create_spanning_ray(&ray);
+                v.require(sr.is_some() == (want.len() == 2), "spanning.exactly_when_two_exact_crossings", || format!("polyline {ip:?} origin {o:?} dir {d:?}: {} exact crossings", want.len()));
+            }
+        }
+        emit_oracle_only("ray.grid", &Tok::new(), &Tok::new(), &v);
+    }
+}
+
 pub fn run(rng: &mut Rng, n: usize) {
     for _ in 0..n {
         one(rng);
         params_and_slabs(rng);
+        grid_vertex_lines(rng);
+        grid_vertex_lines(rng);
     }
 }
